@@ -44,7 +44,8 @@ RULE = ("case = (generated scenario, kill point): scenarios are seeded chains of
         "second process holds an older read snapshot (BEGIN + SELECT) on the database) x start state "
         "(cleanly closed / killed with un-checkpointed WAL / both) x clean close or not x database file name (pages.db; every 4th scenario "
         "one of pages[en].db, p*g?s.db, 'a b.db', a non-ASCII name, a leading dash, a percent sign; a suffix-less name) x location "
-        "(every 10th scenario: database directly in the processes' temp dir), random page sets (5 namespaces, "
+        "(every 10th scenario: database directly in the processes' temp dir; every 10th: the database path is a symbolic link to a "
+        "file in another directory), random page sets (5 namespaces, "
         "redirects, bodies 0-30 kB) + bulk-overwrite kinds (200-260 pages of 12-20 kB, all overwritten by ONE overwrite_pages() "
         "transaction of 3-6 MB, with / without a preceding backup; kill points SAMPLED: 14 spread over the overwrite loop, the 8 "
         "events around its commit line, every backup_db/close_db_conn line, every op boundary); kill points of the other kinds = EVERY traced source line of create_db, backup_db, close_db_conn, add_page, "
@@ -97,7 +98,8 @@ def floors(tier):
          "anchors.core.create_db": 800, "anchors.core.backup_db": 4, "anchors.core.close_db_conn": 100,
          "anchors.dumpparser.analyze_and_overwrite_pages": 1, "anchors.dumpparser.overwrite_pages": 2,
          "sets.kinds": 4, "sets.starts": 2, "nontrivial": 800,
-         "counters.victim.with-concurrent-read-snapshot": 50, "sets.dbname-classes": 3}
+         "counters.victim.with-concurrent-read-snapshot": 50, "sets.dbname-classes": 3,
+         "counters.victim.db-path-is-symlink": 50, "counters.victim.db-directly-in-tempdir": 50}
     if tier == "thorough":
         f.update({"counters.points.syscall": 500, "counters.syscall.pwrite64": 100, "counters.syscall.rename": 1,
                   "counters.syscall.unlink": 1, "sets.kinds": 8, "sets.starts": 3})
@@ -176,6 +178,10 @@ def scenario(seed, si, kind, scale):
     scn = S.gen_scenario(rng, kind, scale, name)
     # every 10th regular scenario: TMPDIR of the victim and of the reopening processes is the directory of the database
     # (the setup processes ran with another TMPDIR); half of them with a suffix-less database name
+    # every 10th regular scenario: the database path is a symbolic link to a file in another directory (ordinary file name)
+    if si < 10000 and si % 10 == 7:
+        scn["dbname"], scn["tags"]["dbname"] = S.DBNAMES[0]
+        scn["tags"]["path"] = "symlink"
     if si < 10000 and si % 10 == 3:
         scn["tags"]["location"] = "tempdir"
         if (si // 10 + seed) % 2 == 0 and scn["tags"]["dbname"] == "ordinary":
@@ -300,6 +306,10 @@ class Template:
         self.indir = os.path.join(base, "in")
         self.marks = os.path.join(base, "marks")
         os.makedirs(self.dbdir)
+        if scn_symlink(scn):
+            # the database path is a (relative) symbolic link; the file itself lives in another directory
+            os.makedirs(os.path.join(self.dbdir, STORE))
+            os.symlink(os.path.join(STORE, scn_dbname(scn)), os.path.join(self.dbdir, scn_dbname(scn)))
         S.write_inputs(scn, self.indir)
         self.input_types = {k: v["type"] for k, v in scn["inputs"].items()}
         self.setup_anchors = {}
@@ -327,7 +337,7 @@ class Template:
 def new_case(tpl, base, name):
     c = os.path.join(base, name)
     os.makedirs(c)
-    shutil.copytree(tpl.dbdir, os.path.join(c, "db"))
+    shutil.copytree(tpl.dbdir, os.path.join(c, "db"), symlinks=True)
     if os.path.exists(tpl.marks):
         shutil.copy(tpl.marks, os.path.join(c, "marks"))
     return c
@@ -388,8 +398,15 @@ def record(tpl, base, name="rec"):
     return case, res, st
 
 
+STORE = "store"    # sub-directory that holds the real database file when the database path is a symbolic link
+
+
 def scn_dbname(scn):
     return scn.get("dbname", S.DBNAME)
+
+
+def scn_symlink(scn):
+    return scn["tags"].get("path") == "symlink"
 
 
 def backup_name(dbname):
@@ -400,6 +417,8 @@ def backup_name(dbname):
 
 def canon_name(fn, dbname):
     """file name in the db dir -> role name as if the database were called pages.db (sigs / counters are name-independent)"""
+    if fn.startswith(STORE + "/"):
+        return STORE + "/" + canon_name(fn[len(STORE) + 1:], dbname)
     b = backup_name(dbname)
     if fn.startswith(b):
         return "pages_backup.db" + fn[len(b):]
@@ -409,6 +428,8 @@ def canon_name(fn, dbname):
 
 
 def real_name(canon, dbname):
+    if canon.startswith(STORE + "/"):
+        return STORE + "/" + real_name(canon[len(STORE) + 1:], dbname)
     if canon.startswith("pages_backup.db"):
         return backup_name(dbname) + canon[len("pages_backup.db"):]
     if canon.startswith("pages.db"):
@@ -417,15 +438,27 @@ def real_name(canon, dbname):
 
 
 def listing(dbdir, dbname=S.DBNAME):
+    """role name -> size of every file the dead process left ("-> target" for a symbolic link; STORE/ one level down)"""
     out = {}
-    try:
-        for fn in sorted(os.listdir(dbdir)):
+
+    def walk(d, prefix):
+        try:
+            names = sorted(os.listdir(d))
+        except OSError:
+            return
+        for fn in names:
+            pth = os.path.join(d, fn)
             try:
-                out[canon_name(fn, dbname)] = os.path.getsize(os.path.join(dbdir, fn))
+                if os.path.islink(pth):
+                    out[canon_name(prefix + fn, dbname)] = "-> " + canon_name(os.readlink(pth), dbname)
+                elif os.path.isdir(pth):
+                    if not prefix:
+                        walk(pth, fn + "/")
+                else:
+                    out[canon_name(prefix + fn, dbname)] = os.path.getsize(pth)
             except OSError:
                 pass
-    except OSError:
-        pass
+    walk(dbdir, "")
     return out
 
 
@@ -531,7 +564,7 @@ def judge(model, res, obs=None):
     return expect, probs, (labels[0] if labels else None)
 
 
-ABLATIONS = [("stale-wal", ["pages.db-wal", "pages.db-shm"]),
+ABLATIONS = [("stale-wal", ["pages.db-wal", "pages.db-shm", STORE + "/pages.db-wal", STORE + "/pages.db-shm"]),
              ("backup-file", ["pages_backup.db"])]
 
 
@@ -544,7 +577,7 @@ def diagnose(model, post, base, close_first, dbname=S.DBNAME, name_class=None, i
             continue
         d = os.path.join(base, "abl")
         shutil.rmtree(d, ignore_errors=True)
-        shutil.copytree(post, d)
+        shutil.copytree(post, d, symlinks=True)
         for f in files:
             try:
                 os.unlink(os.path.join(d, real_name(f, dbname)))
@@ -554,7 +587,20 @@ def diagnose(model, post, base, close_first, dbname=S.DBNAME, name_class=None, i
         shutil.rmtree(d, ignore_errors=True)
         if not probs:
             needs.append(name)
-    if dbname != S.DBNAME:
+    lnk = os.path.join(post, dbname)
+    if os.path.islink(lnk):
+        # the same files with the database path being the file itself (side files next to it) instead of a symbolic link
+        d = os.path.join(base, "abl")
+        shutil.rmtree(d, ignore_errors=True)
+        shutil.copytree(post, d, symlinks=True)
+        os.unlink(os.path.join(d, dbname))
+        for fn in os.listdir(os.path.join(d, STORE)):
+            os.rename(os.path.join(d, STORE, fn), os.path.join(d, fn))
+        _, probs, _ = judge(model, verify(d, close_first, None, dbname, intmp))
+        shutil.rmtree(d, ignore_errors=True)
+        if not probs:
+            needs.append("db-path-is-symlink")
+    elif dbname != S.DBNAME and not os.path.isdir(os.path.join(post, STORE)):
         d = os.path.join(base, "abl")
         shutil.rmtree(d, ignore_errors=True)
         os.makedirs(d)
@@ -655,7 +701,7 @@ class Monitor:
             dbn = scn_dbname(tpl.scn)
             files = listing(dbdir, dbn)
             post = os.path.join(case, "post")
-            shutil.copytree(dbdir, post)
+            shutil.copytree(dbdir, post, symlinks=True)
             expect, probs, _ = judge(model, verify(dbdir, True, None, dbn))
             tpl.pre_sig = make_sig(expect, probs, diagnose(model, post, case, True, dbn, tpl.scn["tags"].get("dbname")), files, model) if probs else None
             shutil.rmtree(case, ignore_errors=True)
@@ -726,9 +772,13 @@ class Monitor:
             obs.count("victim.died-before-start")
             obs.case(json.dumps(casekey), nontrivial=False)
             return None
-        wal = files.get("pages.db-wal", 0)
+        wal = files.get("pages.db-wal", 0) or files.get(STORE + "/pages.db-wal", 0)
         if wal:
             obs.count("files.wal-nonempty-at-kill")
+        if scn_symlink(tpl.scn):
+            obs.count("victim.db-path-is-symlink")
+            if isinstance(files.get("pages.db"), str):
+                obs.count("files.db-path-still-symlink-at-kill")
         if "pages_backup.db" in files:
             obs.count("files.backup-present-at-kill")
             if files["pages_backup.db"] == 0:
@@ -762,7 +812,7 @@ class Monitor:
             out.append((sig, msg))
             return out
         post = os.path.join(case, "post")
-        shutil.copytree(dbdir, post)
+        shutil.copytree(dbdir, post, symlinks=True)
         intmp = scn_intmp(tpl.scn)
         if intmp:
             obs.count("victim.db-directly-in-tempdir")
